@@ -66,6 +66,10 @@ CHECKS['C06'] = dict(tech='Hypothesis netlists with out-of-range constants / sti
              text='Every wire reachable from the HWSystem must hold an int in [0, 2^width) after simulator creation, after Wire.put, after every clk, inside a simulatorUpdated listener and in Waveform data, for generated netlists (negative / oversized constants, Sequence stimulus and pokes, Div/Mod zero-divisor branch) and for every catalogue block at extreme operands. Exploration (sampled).',
              note='Trusted: wire enumeration in pbt/bench.py all_wires; the netgen reference only classifies non-triviality.',
              ref='DESIGN.md 2/C06')
+CHECKS['C03'] = dict(tech='catalogue enumeration + Hypothesis netlists with adversarial names + shared-module-name pairs, judged by an independent Verilog-subset parser / elaborator validity predicate (declarations, resolution, closure, drivers, interface equality)',
+             text='Text returned by the generator for every catalogue block (exhaustive small widths + sampled), for hierarchical netlists with reserved-word and prefix-colliding wire/port/instance names, for pairs of instances whose module names may coincide, and for a corpus of sequential/behavioural/emulation blocks must parse in a grammar derived from the emitters, declare every identifier once, use no reserved word, define every instantiated module once, connect existing ports with equal widths, give every net one driver of the right kind, select only vectors, and elaborate; objects emitted under one name must have equal headers. Exploration; two known findings are excluded/classified by signature and replayed.',
+             note='Trusted: pbt/vlog.py (lexer/parser/elaborator, self-tested against hand-derived IEEE 1364 vectors) and pbt/vcheck.py.',
+             ref='DESIGN.md 2/C03')
 NOT_APPLICABLE = {}
 
 def main():
